@@ -130,6 +130,31 @@ def main():
                     vt = rng.randint(-8, 9, size=(3, nq + 3, nc)) / 8.0
                     out.write({"id": rid + "-trim", "kind": "topoints-bt", "nt": True, "np": int(mesh.npoints), "ncomp": 3, "cells": cells,
                                "vals": logv(vt), "tp": q(fem.topoints(vt, region), S)})
+    # cell means on the serendipity families: MORE quadrature points (3 per axis, unequal weights) than points per cell; every
+    # quadrature point enters the weighted mean (values and results at scale 2^12: 32-bit sums)
+    S12 = 2 ** 12
+    for name, mkr, den in (("quad8", lambda: fem.RegionQuadraticQuad(fem.Rectangle(n=3).add_midpoints_edges()), 81),
+                           ("hex20", lambda: fem.RegionQuadraticHexahedron(fem.Cube(n=2).add_midpoints_edges()), 729)):
+        for avg in (True, False):
+            rid = "topoints-mean-%s-avg%d" % (name, avg)
+            if not out.want(rid):
+                continue
+            region = mkr()
+            mesh = region.mesh
+            nq, nc = region.dV.shape
+            vals = rng.randint(-8, 9, size=(2, nq, nc)) / 8.0
+            W = [int(v) for v in np.rint(region.quadrature.weights * den)]
+            tp = fem.topoints(vals, region, mean=True, average=avg)
+            if avg:
+                out.write({"id": rid, "kind": "topoints-mean", "nt": True, "np": int(mesh.npoints), "ncomp": 2, "cells": [qi(c) for c in mesh.cells], "W": W,
+                           "vals": [[q(vals[:, a_, c], S12) for a_ in range(nq)] for c in range(nc)], "tp": q(tp, S12)})
+            else:
+                # not averaged: one row per (cell, local point), each the weighted cell mean: one-cell "meshes" of the same law
+                ppc = mesh.cells.shape[1]
+                tpc = np.asarray(tp, float).reshape(nc, ppc, 2)
+                for c in range(min(nc, 3)):
+                    out.write({"id": "%s-c%d" % (rid, c), "kind": "topoints-mean", "nt": True, "np": ppc, "ncomp": 2, "cells": [list(range(ppc))], "W": W,
+                               "vals": [[q(vals[:, a_, c], S12) for a_ in range(nq)]], "tp": q(tpc[c], S12)})
     # stress measures, view cell data, boundary force and moment
     XS = 64
     for kind in ("hex", "quad", "hex-ni", "quad-ni"):
